@@ -116,3 +116,37 @@ package dense
 //@   loop 3   ghost     d0 = fb.blocks[bi].dirty
 //@   loop 3   invariant [enq]     forall j int :: {outSeq(fb.cfg, bi)[j]} 0 <= j && j < i && (d0 || out0[j] != fb.blocks[bi].out[j]) ==> inq(fb.queue.inQueue, outSeq(fb.cfg, bi)[j])
 //@   loop 3   invariant [same]    len(fb.queue.inQueue) == len(loopentry(fb.queue.inQueue)) && fb.blocks[bi].dirty == d0 && len(fb.blocks[bi].out) == len(out0) && (forall j int :: {fb.blocks[bi].out[j]} i <= j ==> fb.blocks[bi].out[j] == out0[j])
+
+// ---- Forward: sets up what propagate requires ----
+//@ extern slices.Repeat(x []Fact, count int) []Fact
+//@   ensures len(result) == len(x) * count && (forall k int :: {result[k]} 0 <= k && k < len(result) && len(x) == 1 ==> result[k] == x[0])
+//@ extern (honnef.co/go/tools/internal/xtools-internal/graph.Graph).NumNodes() int
+//@   pure
+// a compact graph's nodes are 0..NumNodes-1 (TRUSTED: what graph.Compact returns)
+//@ group graphwf
+//@ axiom [nodes] forall g graph.Graph, n int, k int :: {outSeq(g, n)[k]} 0 <= k && k < len(outSeq(g, n)) ==> 0 <= outSeq(g, n)[k] && outSeq(g, n)[k] < g.NumNodes()
+//@ axiom [lens]  forall g graph.Graph, n int :: {outSeq(g, n)} len(outSeq(g, n)) >= 0
+//@ group
+//@ func (*nodeHeap).init
+//@   trusted
+//@   modifies *h
+//@   ensures  len(h.inQueue) == (g.NumNodes() + 63) / 64 && len(h.heap) == 0 && (forall m int :: {inq(h.inQueue, m)} 0 <= m && m < 64*len(h.inQueue) ==> !inq(h.inQueue, m))
+// in-edges recorded so far mirror out-edges: edges out of nodes < lim, and of node lim up to its
+// first `upto` out-edges
+//@ ghost predsSoFar(cfg graph.Graph, bs []blockInfo, lim int, upto int) bool = forall m int, t int :: {bs[m].preds[t]} 0 <= m && m < len(bs) && 0 <= t && t < len(bs[m].preds) ==> 0 <= bs[m].preds[t].node && bs[m].preds[t].node <= lim && 0 <= bs[m].preds[t].i && bs[m].preds[t].i < len(outSeq(cfg, bs[m].preds[t].node)) && (bs[m].preds[t].node == lim ==> bs[m].preds[t].i < upto) && outSeq(cfg, bs[m].preds[t].node)[bs[m].preds[t].i] == m
+//@ func Forward
+//@   uses     graphwf
+//@   nosafe   all
+//@   may_panic
+//@   modifies heap
+//@   loop 1   index nidx
+//@   loop 1   invariant [shape] fb != nil && fb.cfg == cg && len(fb.blocks) == nNodes && nNodes == cg.NumNodes() && len(fb.queue.inQueue) == (nNodes + 63) / 64 && ni == nidx
+//@   loop 1   invariant [plen]  forall m int :: {fb.blocks[m]} 0 <= m && m < len(fb.blocks) ==> len(fb.blocks[m].preds) >= 0
+//@   loop 1   invariant [preds] predsSoFar(cg, fb.blocks, ni, 0)
+//@   loop 1   invariant [done]  forall n int :: {fb.blocks[n]} 0 <= n && n < ni ==> fb.blocks[n].dirty && inq(fb.queue.inQueue, n) && len(fb.blocks[n].out) == len(outSeq(cg, n))
+//@   loop 2   yields    succID == outSeq(cg, ni)[outs] && outs < len(outSeq(cg, ni))
+//@   loop 2   exhausts  outs == len(outSeq(cg, ni))
+//@   loop 2   invariant [shape] len(fb.blocks) == nNodes && outs >= 0 && len(fb.queue.inQueue) == (nNodes + 63) / 64
+//@   loop 2   invariant [plen]  forall m int :: {fb.blocks[m]} 0 <= m && m < len(fb.blocks) ==> len(fb.blocks[m].preds) >= 0
+//@   loop 2   invariant [preds] predsSoFar(cg, fb.blocks, ni, outs)
+//@   loop 2   invariant [done]  forall n int :: {fb.blocks[n]} 0 <= n && n < ni ==> fb.blocks[n].dirty && inq(fb.queue.inQueue, n) && len(fb.blocks[n].out) == len(outSeq(cg, n))
